@@ -31,6 +31,23 @@ theorem nanMeanDiff_map_some (nt : Nat) (u : List Rat) (h0 : 0 < nt) (h1 : nt < 
   · intro h; rw [h] at hd; simp at hd; omega
   · intro h; rw [h] at ht; simp at ht; omega
 
+/-- without NaNs and with both samples non-empty the `'t'` statistic is the finite model's -/
+theorem nanT_map_some (nt : Nat) (u : List Rat) (h0 : 0 < nt) (h1 : nt < u.length) :
+    nanT nt (u.map some) = some (tKey (u.take nt) (u.drop nt)) := by
+  have ht : (u.take nt).length = nt := by rw [List.length_take]; omega
+  have hd : (u.drop nt).length = u.length - nt := List.length_drop
+  unfold nanT
+  rw [← List.map_take, ← List.map_drop, filterMap_id_map_some, filterMap_id_map_some]
+  have h1' : (u.take nt).isEmpty = false := by
+    cases h : u.take nt with
+    | nil => rw [h] at ht; simp at ht; omega
+    | cons a l => rfl
+  have h2' : (u.drop nt).isEmpty = false := by
+    cases h : u.drop nt with
+    | nil => rw [h] at hd; simp at hd; omega
+    | cons a l => rfl
+  simp [h1', h2']
+
 theorem cntGeN_map_some (d : List Rat) (t : Rat) : cntGeN (d.map some) (some t) = cntGe d t := by
   unfold cntGeN cntGe
   rw [List.countP_map]; rfl
@@ -130,6 +147,7 @@ theorem strat_nan_refines (group : List Int) (resp : List Rat) (nt : Nat) (alt :
 /-- non-vacuity: a stratum whose only treated responder is NaN gives a NaN statistic, counted nowhere -/
 example : nanMeanDiff 1 [none, some 3, some 5] = none := by decide +kernel
 example : nanMeanDiff 1 [some 2, none, some 5] = some (-3) := by decide +kernel
+example : nanT 2 [none, none, some 5, some 1] = none := by decide +kernel
 example : cntGeN [none, some 1, some 4] (some 2) = 1 ∧ cntLeN [none, some 1, some 4] (some 2) = 1 := by decide +kernel
 
 end PV.Nan
